@@ -85,6 +85,8 @@ def run(ctx, rep):
         return cache
 
     c06.rule_init(ctx, rep, scope=scope)  # (the constructors the Deserialize impls reach)
+    balance.rule_write_provenance(ctx, rep)  # "the sole owner": the pointer the constructors store may be written through (get_mut, the final drop)
+    rep.floor("R-PROVENANCE", 4, "handle literals in the crate's constructors (today 30+)")
     # "a *new* handle that is the sole owner": no method of the serde impls - the provided ones they may override included
     # (`deserialize_in_place`) - writes into a payload that other handles may share, unless behind the Acquire uniqueness gate
     from . import c03
